@@ -6,6 +6,8 @@ A snapshot is (local_row, [peer rows]) as plain dicts keyed by column name (None
 (peers); a row without it is only usable when the caller supplies a fallback rule - this reference
 treats a row as "missing address" when neither that column nor `peer` has a value (the case in which
 only the dedicated column is null is left to the caller, see C42's assumptions).
+
+`judge_plan` / `expected_distance` say what a datacenter-aware load-balancing policy must plan for a mirrored state.
 """
 
 
